@@ -295,7 +295,7 @@ def scan_forbidden():
     return hits
 
 
-def lean_stage(check, pid, extra_targets=()):
+def lean_stage(check, pid, extra_targets=(), extra_props=()):
     """regenerate Gen/*.lean from the current source, build the property's theorems and the driver, audit axioms.
     Registers tie failures on `check`; returns True when every obligation is discharged."""
     sys.path.insert(0, os.path.join(VERIF, "tools"))
@@ -317,9 +317,14 @@ def lean_stage(check, pid, extra_targets=()):
             ns, names = theorem_names(pid)
             info["obligations"] = len(names)
             return False
-        ns, names = write_audit(pid)
+        ns, names0 = write_audit(pid)
+        names = [(ns, n) for n in names0]
+        for ep in extra_props:
+            ens, enames = write_audit(ep)
+            names += [(ens, n) for n in enames]
         info["obligations"] = len(names)
-        targets = [f"IxaiVerif.Audit.{pid}", "IxaiVerif.Driver.Main"] + list(extra_targets)
+        targets = [f"IxaiVerif.Audit.{pid}", "IxaiVerif.Driver.Main"] + [f"IxaiVerif.Audit.{ep}" for ep in extra_props] \
+            + list(extra_targets)
         t0 = time.time()
         proc = subprocess.run(["lake", "build"] + targets, cwd=LEAN_DIR, capture_output=True, text=True)
         info["build_s"] = round(time.time() - t0, 1)
@@ -336,8 +341,8 @@ def lean_stage(check, pid, extra_targets=()):
         broken = sorted(set(re.findall(r"error: (IxaiVerif/[A-Za-z0-9_/]+\.lean):(\d+)", out)))
         which = ", ".join(f"{f}:{l}" for f, l in broken[:8]) or "see lean_errors"
         check.tie_failure("lake build", f"proof obligations of {pid} no longer check ({which}): " + " | ".join(errors[:3]))
-    for n in names:
-        full = f"{ns}.{n}"
+    for ns_, n in names:
+        full = f"{ns_}.{n}"
         axs = info["theorems"].get(full)
         if axs is None:
             continue
